@@ -350,9 +350,11 @@ func (v *visitor) FunctionNode(node *ast.FunctionNode) reflect.Type {
 				fn.IsVariadic() &&
 				fn.NumIn() == inputParamsCount &&
 				fn.NumOut() == 1 &&
-				fn.Out(0).Kind() == reflect.Interface {
+				fn.Out(0) == interfaceType &&
+				fn.Name() == "" {
+				// The VM asserts the function to be exactly func(...interface{}) interface{}.
 				rest := fn.In(fn.NumIn() - 1) // function has only one param for functions and two for methods
-				if rest.Kind() == reflect.Slice && rest.Elem().Kind() == reflect.Interface {
+				if rest.Kind() == reflect.Slice && rest.Elem() == interfaceType {
 					node.Fast = true
 				}
 			}
